@@ -43,7 +43,7 @@ def e_(s):
 
 
 def build(case):
-    idx = {n: get_symbols(n)[0] for n in OCC + VIRT}
+    idx = {n: get_symbols(n)[0] for n in OCC + VIRT + ["p", "q"]}
     num = S.Zero
     for coeff, n in case["num"]:
         num += Rational(*coeff) * e_(idx[n])
@@ -238,6 +238,11 @@ def fock_cases(tier, seed):
            "target": "kc"}
     yield {"num": [], "denom": [], "rem": [["f", ["a", "b"], 1], ["X", ["c", "i"], 1], ["f", ["b", "c"], 1]],
            "target": "ai"}
+    # general indices: a mixed block f_{i p} is not an off diagonal block (p also runs over the
+    # occupied orbitals)
+    yield {"num": [], "denom": [], "rem": [["f", ["p", "i"], 1], ["X", ["p"], 1]], "target": "i"}
+    yield {"num": [], "denom": [], "rem": [["f", ["a", "p"], 1], ["X", ["p", "i"], 1]], "target": "ai"}
+    yield {"num": [], "denom": [], "rem": [["f", ["p", "q"], 1], ["X", ["p", "q"], 1]], "target": ""}
     # powers of one Fock matrix element (real basis: f^i_j f^j_i is (f^i_j)^2)
     for exp in (2, 3):
         yield {"num": [], "denom": [], "rem": [["f", ["i", "j"], exp], ["X", ["j"], 1]], "target": "i"}
